@@ -30,7 +30,7 @@ use clvmr::Allocator;
 use std::collections::BTreeMap;
 use std::sync::OnceLock;
 use vcore::condgen;
-use vcore::engine::{CaseResult, Ctx, Property, Source, SubCheck};
+use vcore::engine::{CaseResult, Ctx, Property, Source, SubCheck, Tier};
 use vcore::gentree::{self, BuildMode, Tid, Tree};
 use vcore::model::conditions as mc;
 use vcore::model::int::enc_u64;
@@ -1532,6 +1532,213 @@ pub fn case_unsafe_and_keys(bytes: &[u8], ctx: &mut Ctx) -> CaseResult {
 
 // ---------------------------------------------------------------------------
 
+// ---------------------------------------------------------------------------
+// sub-check 4: many signature conditions in one bundle. The other sub-checks
+// keep bundles at 1-6 conditions because every case pays ~20 verifications; an
+// implementation is free to treat long pair lists differently (batching,
+// chunking, parallel verification, capacity limits), so the number of
+// conditions itself is generated here: small counts, counts around every power
+// of two from 64 to 2048 (±3) and arbitrary counts up to 1500. Every pair is
+// distinct, so leaving out ANY single share must be noticed.
+
+pub const SIG_MANY_POSITIVE: &str = "C05:many:correctly-signed-bundle-rejected";
+
+/// the condition counts of a tier: small ones, every power of two from 64 to
+/// 2048 with its neighbours, 1000, 1500 (thorough: wider neighbourhoods and
+/// more in-between values)
+fn many_counts(tier: Tier) -> Vec<usize> {
+    let mut v: Vec<usize> = vec![1, 2, 3, 4, 5, 7, 8, 9, 15, 16, 17, 31, 32, 33, 1000, 1500];
+    let (lo, hi): (usize, usize) = if tier == Tier::Thorough { (5, 9) } else { (1, 3) };
+    for b in [64usize, 128, 256, 512, 1024, 2048] {
+        for c in b - lo..=b + hi {
+            v.push(c);
+        }
+    }
+    if tier == Tier::Thorough {
+        for k in 0..40 {
+            v.push(41 + k * 37);
+        }
+    }
+    v.sort_unstable();
+    v.dedup();
+    v
+}
+
+fn enum_many(tier: Tier, shard: usize, n: usize, emit: &mut dyn FnMut(&[u8]) -> bool) {
+    let seeds: u64 = if tier == Tier::Thorough { 6 } else { 1 };
+    // large counts first and interleaved over the shards (they dominate the cost)
+    let mut counts = many_counts(tier);
+    counts.reverse();
+    let mut idx = 0usize;
+    for seed in 0..seeds {
+        for c in &counts {
+            let mine = idx % n == shard;
+            idx += 1;
+            if !mine {
+                continue;
+            }
+            let mut f = Fnv::new();
+            f.write_u64(*c as u64).write_u64(seed);
+            let mut bytes = (*c as u16).to_be_bytes().to_vec();
+            bytes.extend_from_slice(&f.finish().to_le_bytes());
+            if !emit(&bytes) {
+                return;
+            }
+        }
+    }
+}
+
+pub fn case_many(bytes: &[u8], ctx: &mut Ctx) -> CaseResult {
+    let mut s = Src::new(bytes);
+    let nets = nets();
+    // bytes = [count (2 bytes, big endian), 8 bytes of further choices]
+    let n = usize::from(s.u16()).clamp(1, 2100);
+    let net_idx = s.weighted(&[3, 2, 2]);
+    let flag_idx = s.below(proglevel::NUM_FLAG_SETS);
+    let n_spends = 1 + s.below(3);
+    let salt = s.u16();
+    let mut bundle: Bundle = vec![];
+    for i in 0..n_spends {
+        let mut parent = [0x4du8; 32];
+        parent[1] = i as u8 + 1;
+        parent[2..4].copy_from_slice(&salt.to_be_bytes());
+        bundle.push(Spend { parent, tag: 1 + s.below(condgen::NUM_TAGS) as u8, amount: gen_amount(&mut s), conds: vec![] });
+    }
+    let op_mix = s.below(3);
+    for j in 0..n {
+        // spread over the spends in blocks, so that a spend boundary falls anywhere
+        let si = (j * n_spends) / n;
+        let op = match op_mix {
+            0 => OPS[j % 8],
+            1 => OPS[(j / 7) % 8],
+            _ => OPS[s.below(8)],
+        };
+        let key = condgen::key_pool().pks[(j + usize::from(salt)) % condgen::NUM_KEYS];
+        let mut msg = (j as u32).to_be_bytes().to_vec();
+        msg.extend_from_slice(&salt.to_be_bytes());
+        if ends_with_domain(&nets[net_idx], &msg) {
+            msg.push(0);
+        }
+        bundle[si].conds.push(Cond { op, key, msg });
+    }
+    let env = Env { net: &nets[net_idx], flags: proglevel::flag_set(flag_idx), mode: BuildMode::PLAIN, max_cost: 11_000_000_000 };
+    let (pairs, _) = expected_pairs(&bundle, env.net);
+    let mut signer = Signer::default();
+    let shares: Vec<Signature> = pairs.iter().map(|(pk, m)| signer.share(key_index(pk).expect("pool key"), m)).collect();
+    let mut full = Signature::default();
+    for sh in &shares {
+        full.aggregate(sh);
+    }
+    ctx.label(format!(
+        "many:conds:{}",
+        match n {
+            0..=40 => "1-40",
+            41..=1023 => "41-1023",
+            1024 => "1024",
+            1025..=1031 => "1025-1031",
+            _ => "1032+",
+        }
+    ));
+    ctx.label(format!("many:conds-mod-4:{}", n % 4));
+    ctx.render(|| {
+        format!(
+            "net={} flags={:?} {n} AGG_SIG conditions over {n_spends} spends (op mix {op_mix}, salt {salt}); first spend: {}",
+            env.net.name,
+            env.flags,
+            render_bundle(&bundle[..1].to_vec())
+        )
+    });
+    // entry points: the mempool's pre-validation and block validation, for
+    // moderate sizes also the remaining ones
+    let mut entries = vec![Entry::Rbg2];
+    if n <= 200 {
+        entries.push(Entry::ParseMempool);
+        entries.push(Entry::Rbg);
+    }
+    let mut rejected = vec![];
+    for e in &entries {
+        if let Err(err) = run_entry(*e, &bundle, &full, None, &env) {
+            rejected.push(format!("{}: {err}", e.name()));
+        }
+    }
+    // pre-validation, and the pairings it returns: one per condition
+    let sb = SpendBundle::new(coin_spends(&bundle), full.clone());
+    let gts = match validate_clvm_and_signature(&sb, env.max_cost, &env.net.consts, env.flags) {
+        Ok((_, gts)) => Some(gts),
+        Err(e) => {
+            rejected.push(format!("validate_clvm_and_signature: {e:?}"));
+            None
+        }
+    };
+    vensure!(
+        rejected.is_empty(),
+        SIG_MANY_POSITIVE,
+        "{n} AGG_SIG conditions, signed with the aggregate of one share per (key, final message) pair the rules prescribe, rejected at: {}",
+        rejected.join("; ")
+    );
+    if let Some(gts) = gts {
+        let mut want: Vec<[u8; 32]> = pairs
+            .iter()
+            .map(|(pk, m)| {
+                let mut aug = pk.clone();
+                aug.extend_from_slice(m);
+                condgen::sha(&[&aug])
+            })
+            .collect();
+        let mut got: Vec<[u8; 32]> = gts.iter().map(|(h, _)| *h).collect();
+        want.sort_unstable();
+        got.sort_unstable();
+        vensure!(
+            want == got,
+            "C05:many:prevalidation-pairings-differ-from-conditions",
+            "validate_clvm_and_signature returned {} pairings for {} signature conditions (as multisets of sha256(key | message) they differ)",
+            got.len(),
+            want.len()
+        );
+    }
+    // leave out one share. Small bundles: last three, first, a middle one, at both
+    // entry points; large ones (cost!): the last at both, one other (first or a
+    // middle one) at one of them
+    let other = if s.bool() { 0 } else { s.below(n) };
+    let mut runs: Vec<(usize, Entry)> = vec![];
+    if n <= 200 {
+        let mut idxs = vec![n - 1, n.saturating_sub(2), n.saturating_sub(3), 0, other];
+        idxs.sort_unstable();
+        idxs.dedup();
+        for i in idxs {
+            runs.push((i, Entry::Validate));
+            runs.push((i, Entry::Rbg2));
+        }
+    } else {
+        runs.push((n - 1, Entry::Validate));
+        runs.push((n - 1, Entry::Rbg2));
+        runs.push((other, if salt % 2 == 0 { Entry::Validate } else { Entry::Rbg2 }));
+    }
+    let mut executed = 0u64;
+    for (i, e) in runs {
+        let mut sig = Signature::default();
+        for (j, sh) in shares.iter().enumerate() {
+            if j != i {
+                sig.aggregate(sh);
+            }
+        }
+        if run_entry(e, &bundle, &sig, None, &env).is_ok() {
+            vfail!(
+                "C05:many:accepted-with-one-share-missing",
+                "{n} AGG_SIG conditions (all pairs distinct): the aggregate WITHOUT the share of pair #{i} is accepted at {}",
+                e.name()
+            );
+        }
+        executed += 1;
+    }
+    ctx.add_inner(executed);
+    ctx.ran_dry(s.ran_dry());
+    if n >= 2 {
+        ctx.nontrivial(fingerprint(&bundle, &[net_idx as u64, flag_idx as u64, n as u64]));
+    }
+    Ok(())
+}
+
 fn leak(v: Vec<String>) -> &'static [&'static str] {
     let v: Vec<&'static str> = v.into_iter().map(|s| &*Box::leak(s.into_boxed_str())).collect();
     Box::leak(v.into_boxed_slice())
@@ -1634,7 +1841,7 @@ fn required_unsafe_labels() -> &'static [&'static str] {
 pub fn property() -> Property {
     Property {
         id: "C05",
-        rule: "bundle sub-check: a case is (network in {TEST_CONSTANTS, fresh distinct additional-data constants, TEST_CONSTANTS' seven values rotated by one opcode}, flag set, allocator representation, 1-3 spends with tagged-identity puzzles and amounts from every encoded-length class 0..9 bytes, 1-6 AGG_SIG conditions over the 8 opcodes with pool keys and messages of 0..1024 bytes incl. ones ending in a domain constant or in a coin attribute and repeated conditions). The harness derives the (key, final message) multiset from its own opcode table, signs it, requires acceptance at 11 entry-point x cache combinations, then applies 19 single-point tamperings; each that changes the (multiset, signature) relation is run at parse_spends with the warm cache, at one cache-less entry point in rotation and every third time at an entry point with a cold cache, and must be rejected. Non-trivial = >=2 distinct AGG_SIG opcodes or >=2 keys, positive case accepted everywhere, every applicable tampering (at least 12 of 19) executed and rejected; distinct by (bundle, network, flags). final-message sub-check: non-trivial = bundle with >=1 condition whose rules-derived multiset was compared with run_spendbundle's pkm_pairs and make_aggsig_final_message. unsafe-and-keys sub-check: non-trivial = every generated scenario (banned suffix, near miss, short, constant not last, other network's constant, unacceptable key) that ran to its verdict.",
+        rule: "bundle sub-check: a case is (network in {TEST_CONSTANTS, fresh distinct additional-data constants, TEST_CONSTANTS' seven values rotated by one opcode}, flag set, allocator representation, 1-3 spends with tagged-identity puzzles and amounts from every encoded-length class 0..9 bytes, 1-6 AGG_SIG conditions over the 8 opcodes with pool keys and messages of 0..1024 bytes incl. ones ending in a domain constant or in a coin attribute and repeated conditions). The harness derives the (key, final message) multiset from its own opcode table, signs it, requires acceptance at 11 entry-point x cache combinations, then applies 19 single-point tamperings; each that changes the (multiset, signature) relation is run at parse_spends with the warm cache, at one cache-less entry point in rotation and every third time at an entry point with a cold cache, and must be rejected. Non-trivial = >=2 distinct AGG_SIG opcodes or >=2 keys, positive case accepted everywhere, every applicable tampering (at least 12 of 19) executed and rejected; distinct by (bundle, network, flags). final-message sub-check: non-trivial = bundle with >=1 condition whose rules-derived multiset was compared with run_spendbundle's pkm_pairs and make_aggsig_final_message. many-signatures sub-check: see its description; non-trivial = >= 2 conditions. unsafe-and-keys sub-check: non-trivial = every generated scenario (banned suffix, near miss, short, constant not last, other network's constant, unacceptable key) that ran to its verdict.",
         assumptions: &[
             "the harness's own table: ME coin id; PARENT parent id; PUZZLE puzzle hash; AMOUNT minimal amount encoding; PUZZLE_AMOUNT ph+amount; PARENT_AMOUNT parent+amount; PARENT_PUZZLE parent+ph; UNSAFE nothing; then the constants field named after the opcode; coin id = sha256(parent|ph|minimal amount)",
             "shares are made with chia_bls::sign (augmented scheme) and aggregated by the harness; BLS arithmetic itself is decided by C15/C16",
@@ -1669,6 +1876,15 @@ pub fn property() -> Property {
                 inflight: false,
                 min_nontrivial: 6_000,
                 required_labels: required_unsafe_labels(),
+            },
+            SubCheck {
+                name: "many-signatures",
+                about: "bundles with 1-2052 distinct AGG_SIG conditions (counts around every power of two from 64 to 2048, around 1000, and arbitrary ones up to 1500): the full aggregate is accepted by pre-validation and block validation, pre-validation returns one pairing per condition, the aggregate with any one share left out (last three, first, a middle one) is rejected",
+                source: Source::Enumerate { f: enum_many, exhaustive: false },
+                run: case_many,
+                inflight: false,
+                min_nontrivial: 40,
+                required_labels: &["many:conds:1-40", "many:conds:41-1023", "many:conds:1025-1031", "many:conds:1032+", "many:conds-mod-4:1", "many:conds-mod-4:2", "many:conds-mod-4:3"],
             },
         ],
     }
